@@ -198,6 +198,8 @@ Member gen_file(Rng &rng, int level, const std::string &path, const std::string 
 		}
 	}
 	if (m.method == "-lk7-") { m.level = level = 1; m.os = ' '; m.method = "-lh7-"; unix_meta = false; }
+	// level-0 extended areas of PMarc members are comments, not Unix metadata
+	if (m.level == 0 && m.method.compare(0, 3, "-pm") == 0) unix_meta = false;
 	int perms = -1, uid = -1, gid = -1;
 	if (unix_meta && m.os == 'U') {
 		static const int fp[] = {0644, 0600, 0755, 0444, 0400, 0640, 0664, 0711, 0000, 0200, 01644, 02755, 04755};
